@@ -103,7 +103,9 @@ ACCUMULATORS = {
     # caller-supplied dcsrch work arrays; sf is the evaluation cache the search is meant to drive
     "linesearch.line_search": {"isave", "dsave", "sf"},
 }
-ACCUMULATOR_NAMES = {"self"}   # a method may write its own object
+# a method may write its own object; the internal-state record is created inside the call and handed to
+# helpers precisely to be written (matrices and the wrapper stay per-function: see ACCUMULATORS)
+ACCUMULATOR_NAMES = {"self", "istate"}
 
 # objects owned by the caller of the public API
 API_ENTRY = "main.minimize_lbfgsb"
